@@ -1026,6 +1026,57 @@ func cosmosProbe() (out map[string]any) {
 	out["vault_type"] = fmt.Sprintf("%T", v)
 	out["implements_recovery"] = ok
 
+	// (c) candidate R9: the FIRST UpdatePlan of a run (sm.Start: NotStarted -> Running) torn between the patch
+	// of the plan item and the replace of the search entry (the search-partition write is refused, which is
+	// also what a crash between the two writes leaves): item Running, entry still NotStarted.
+	func() {
+		defer func() {
+			if r := recover(); r != nil {
+				out["torn_first_write_panic"] = fmt.Sprint(r)
+			}
+		}()
+		ctx := context.Background()
+		v2, ctl2 := cosmosdb.NewFakeVaultOpts(set.Reg, "swarm", 0)
+		nid := func() uuid.UUID { u, _ := uuid.NewV7(); return u }
+		ns := func() *workflow.State { return &workflow.State{Status: workflow.NotStarted} }
+		a := &workflow.Action{ID: nid(), Name: "a", Descr: "d", Plugin: hplug.ActionName, Req: hplug.Req{Nonce: "r9"}, State: ns()}
+		q := &workflow.Sequence{ID: nid(), Name: "s", Descr: "d", Actions: []*workflow.Action{a}, State: ns()}
+		b := &workflow.Block{ID: nid(), Name: "b", Descr: "d", Sequences: []*workflow.Sequence{q}, State: ns(), Concurrency: 1}
+		p := &workflow.Plan{ID: nid(), Name: "p", Descr: "d", Blocks: []*workflow.Block{b}, State: ns(), SubmitTime: time.Now()}
+		if err := v2.Create(ctx, p); err != nil {
+			out["torn_first_write"] = "create failed: " + err.Error()
+			return
+		}
+		p.State.Status = workflow.Running
+		p.State.Start = time.Now()
+		ctl2.SetPoisonSearchPartition(true)
+		ctl2.SetReplaceItemErr(true)
+		uerr := v2.UpdatePlan(ctx, p)
+		ctl2.SetReplaceItemErr(false)
+		ctl2.SetPoisonSearchPartition(false)
+		rp, err := v2.Read(ctx, p.ID)
+		if err != nil {
+			out["torn_first_write"] = "read failed: " + err.Error()
+			return
+		}
+		entry := -1
+		if raw, err := ctl2.SearchItemRaw(ctx, p.ID.String()); err == nil {
+			var e struct {
+				StateStatus int `json:"stateStatus"`
+			}
+			if json.Unmarshal(raw, &e) == nil {
+				entry = e.StateStatus
+			}
+		}
+		out["torn_first_write"] = map[string]any{
+			"update_plan_returned_error": uerr != nil,
+			"plan_item_status":           plancoq.Status(rp.State.Status),
+			"search_entry_status":        entry,
+			"search_entry_is_notstarted": entry == int(workflow.NotStarted),
+			"torn":                       rp.State.Status == workflow.Running && entry == int(workflow.NotStarted),
+		}
+	}()
+
 	step := "craft"
 	defer func() {
 		if r := recover(); r != nil {
